@@ -88,6 +88,7 @@ type inst struct {
 	n      int
 	needRT bool
 	noDense bool
+	denseAll map[ast.Stmt]bool
 	closeStmts map[*ast.ExprStmt]bool
 }
 
@@ -187,6 +188,7 @@ func (in *inst) run() {
 		}
 	}
 
+	in.markDenseFuncs()
 	astutil.Apply(in.file, nil, func(c *astutil.Cursor) bool {
 		in.denseStmt(c)
 		switch n := c.Node().(type) {
@@ -306,12 +308,73 @@ func (in *inst) denseStmt(c *astutil.Cursor) {
 			}
 		}
 	}
+	if stmt, ok := node.(ast.Stmt); ok && in.denseAll[stmt] {
+		hit = true
+	}
 	if !hit {
 		return
 	}
 	in.needRT = true
 	st.dense++
 	c.InsertBefore(in.stmts("simrt.Dense(" + in.site(node) + ")")[0])
+}
+
+// markDenseFuncs: in a function that touches mutable package-level state (a variable of the package that is not an
+// error value or a function) every statement is a preemption point: what such a function keeps in locals is often an
+// alias of that state (a scratch buffer, a free list, a cache), which a syntactic look at single statements cannot see.
+func (in *inst) markDenseFuncs() {
+	in.denseAll = map[ast.Stmt]bool{}
+	touches := func(body *ast.BlockStmt) bool {
+		found := false
+		ast.Inspect(body, func(n ast.Node) bool {
+			if found {
+				return false
+			}
+			id, ok := n.(*ast.Ident)
+			if !ok {
+				return true
+			}
+			v, ok := in.pkg.TypesInfo.Uses[id].(*types.Var)
+			if !ok || v.Parent() != in.pkg.Types.Scope() {
+				return true
+			}
+			switch v.Type().Underlying().(type) {
+			case *types.Interface, *types.Signature:
+				return true
+			}
+			found = true
+			return false
+		})
+		return found
+	}
+	mark := func(body *ast.BlockStmt) {
+		ast.Inspect(body, func(n ast.Node) bool {
+			if _, ok := n.(*ast.FuncLit); ok {
+				return false
+			}
+			if st, ok := n.(ast.Stmt); ok {
+				switch st.(type) {
+				case *ast.BlockStmt, *ast.LabeledStmt, *ast.CaseClause, *ast.CommClause, *ast.EmptyStmt:
+				default:
+					in.denseAll[st] = true
+				}
+			}
+			return true
+		})
+	}
+	ast.Inspect(in.file, func(n ast.Node) bool {
+		switch f := n.(type) {
+		case *ast.FuncDecl:
+			if f.Body != nil && f.Name.Name != "init" && touches(f.Body) {
+				mark(f.Body)
+			}
+		case *ast.FuncLit:
+			if touches(f.Body) {
+				mark(f.Body)
+			}
+		}
+		return true
+	})
 }
 
 func (in *inst) denseBody(b *ast.BlockStmt, at ast.Node) {
